@@ -184,7 +184,7 @@ func c16Newest(ans []*mocrelay.Event) []*mocrelay.Event {
 
 func TestVerif_C16(t *testing.T) {
 	rep := vk.NewReport(t, "C16", "exploration")
-	rep.Rule = "one session per generated client message sequence over all five message types: (a) CacheHandler, fully pipelined (EVENT, match-everything REQ as state observation, random REQ/COUNT/CLOSE/AUTH), replies parsed into per-request groups, OK verdict judged by the retention specification, REQ answers by the query specification; followed by Dump -> Restore into a fresh cache of the same capacity and a differential panel of 40 filter lists plus a second dump; (b) SQLiteHandler (EventBulkInsertNum=1), REQs issued at quiescence (a sentinel event is polled in the events table), answers judged against the SQLite model; non-trivial = a sequence containing a rejected EVENT, a non-empty REQ answer or a CLOSE/AUTH between requests; distinct = distinct (message-type sequence shape, #rejected, capacity)"
+	rep.Rule = "one session per generated client message sequence over all five message types: (a) CacheHandler, fully pipelined (EVENT, match-everything REQ as state observation, random REQ/COUNT/CLOSE/AUTH), replies parsed into per-request groups, OK verdict judged by the retention specification, REQ answers by the query specification; followed by Dump -> Restore into a fresh cache of the same capacity and a differential panel of 40 filter lists plus a second dump; (b) SQLiteHandler (EventBulkInsertNum=1), REQs issued at quiescence (a sentinel event is polled in the events table), answers judged against the SQLite model; added later: one large dump/restore round trip in four uses a cache of 1100-3500 events over at most two minutes of timestamps; non-trivial = a sequence containing a rejected EVENT, a non-empty REQ answer or a CLOSE/AUTH between requests; distinct = distinct (message-type sequence shape, #rejected, capacity)"
 	rep.Assume("for ephemeral events the cache handler's OK verdict is not judged: 'accepting iff newly stored' (C16) and 'reported as new iff neither duplicate, older nor suppressed' (C04) disagree on an event class that is never stored")
 	defer rep.Finish()
 	ctx := context.Background()
@@ -564,11 +564,19 @@ func TestVerif_C16(t *testing.T) {
 	vk.Parallel(nC, func(i int) {
 		r := vk.RNG("C16/bigdump", i)
 		capacity := 110 + r.IntN(300)
+		nOffered := capacity/2 + r.IntN(capacity)
+		if i%4 == 0 {
+			// thousands of events over at most two minutes of timestamps: wherever a dump
+			// that works in pages or chunks cuts, events with equal created_at sit on both sides
+			capacity = 1100 + r.IntN(2400)
+			nOffered = capacity*3/2 + r.IntN(capacity)
+			rep.Count("very_large_dumps", 1)
+		}
 		h := mocrelay.NewCacheHandler(capacity)
 		g := vk.NewStoreGen(r, 3, int64(20+r.IntN(100)))
 		fg := &vk.FilterGen{R: r, Authors: g.Authors, TimeLo: g.TimeBase, TimeHi: g.TimeBase + g.TimeRange}
 		var ms []c16Msg
-		for k, n := 0, capacity/2+r.IntN(capacity); k < n; k++ {
+		for k, n := 0, nOffered; k < n; k++ {
 			ms = append(ms, c16Msg{msg: &mocrelay.ClientEventMsg{Event: g.Next()}})
 		}
 		fg.Events = g.Offered
